@@ -66,6 +66,11 @@ def custom_plugin(plugin: str) -> None:
     try:
         plugin_module = importlib.import_module(plugin)
     except ImportError:
+        plugin_module = None
+    # A directory of that name on the module search path (e.g. the output of an
+    # earlier run with `-o rust`) imports as an empty namespace package: it is
+    # not a plugin.
+    if plugin_module is None or not hasattr(plugin_module, "generate"):
         LOGGER.info(f"Loading plugin: generator.plugins.{plugin}.")
         plugin_module = importlib.import_module(f"generator.plugins.{plugin}")
     return plugin_module
